@@ -39,14 +39,28 @@ def gcm_len_classes():
     return ls
 
 
+AAD_SMALL = list(range(0, 49))
+AAD_MID = [63, 64, 65, 127, 128, 129, 255, 256, 257]
+# the AAD hashing loops work in 16 / 32 / 48-block strides with a tail: residues on both sides of every stride boundary
+AAD_LARGE = [272, 288, 300, 304, 305, 320, 321, 400, 511, 512, 513, 520, 767, 768, 769, 800, 1023, 1024, 1025, 1300, 2048, 2049, 4097]
+
+
 def aad_lens():
-    return list(range(0, 49)) + [63, 64, 65, 127, 128, 129, 255, 256, 257, 2048]
+    return AAD_SMALL + AAD_MID + AAD_LARGE
 
 
-def gcm_call(rng, fam, bits, dirn, nt, ln, alen, tlen, inpl=None):
+def pick_aad(rng):
+    r = rng.random()
+    return rng.choice(AAD_SMALL) if r < 0.5 else rng.choice(AAD_MID) if r < 0.7 else rng.choice(AAD_LARGE)
+
+
+def gcm_call(rng, fam, bits, dirn, nt, ln, alen, tlen, inpl=None, pin=None):
     if inpl is None:
-        inpl = 1 if (rng.random() < 0.3 and not nt) else 0
-    pin = place(rng, nt)
+        inpl = 1 if (rng.random() < 0.3 and not nt and pin is None) else 0
+    if pin is None:
+        pin = place(rng, nt)
+    elif nt and pin == "e":
+        pin = "s"           # the non-temporal variants require 64-byte aligned data: only the page start qualifies
     pout = place(rng, nt)
     return "gcm %s %d %s %d %d %d %d %d %d %d %d %d %d %d %d %d %s %s %s %s %s" % (
         fam, bits, dirn, nt, bufid(rng), rng.randrange(1 << 20), bufid(rng), rng.randrange(1 << 20),
@@ -76,7 +90,12 @@ def gcm_oneshot_behaviours(rng, n_per_combo, fams=None, full=False):
                                  [8192 + rng.choice([0, 1, 15, 16, 17]) for _ in range(n)])
                     bs = []
                     for ln in picks:
-                        bs.append([gcm_call(rng, fam, bits, dirn, nt, ln, rng.choice(aad_lens()), rng.choice([8, 12, 16]))])
+                        bs.append([gcm_call(rng, fam, bits, dirn, nt, ln, pick_aad(rng), rng.choice([8, 12, 16]))])
+                    # sub-block and one-block messages with the input flush against an inaccessible page on either side
+                    # (partial-block loads may reach neither before the first nor past the last input byte)
+                    tiny = [(ln, pl) for ln in range(1, 18) for pl in ("s", "e")]
+                    for ln, pl in (tiny if full else rng.sample(tiny, max(6, n_per_combo // 4))):
+                        bs.append([gcm_call(rng, fam, bits, dirn, nt, ln, pick_aad(rng), rng.choice([8, 12, 16]), pin=pl)])
                     jobs[name] = bs
     return jobs
 
@@ -85,7 +104,7 @@ def gcm_stream_behaviour(rng, fam, bits, dirn, nt, pieces, alen=None, tlen=None)
     sid = 0
     kb, ko, ib, io, ab, ao = bufid(rng), rng.randrange(1 << 20), bufid(rng), rng.randrange(1 << 20), bufid(rng), rng.randrange(1 << 20)
     if alen is None:
-        alen = rng.choice(aad_lens())
+        alen = pick_aad(rng)
     cmds = ["gcmi %d %s %d %d %d %d %d %d %d %d %s %s" % (sid, fam, bits, kb, ko, ib, io, ab, ao, alen, place(rng), place(rng))]
     db = bufid(rng)
     off = rng.randrange(1 << 19)
@@ -93,6 +112,8 @@ def gcm_stream_behaviour(rng, fam, bits, dirn, nt, pieces, alen=None, tlen=None)
         inpl = 1 if (rng.random() < 0.3 and not nt) else 0
         cmds.append("gcmu %d %s %d %d %d %d %d %s %s" % (sid, dirn, nt, db, off, ln, inpl, place(rng, nt), place(rng, nt)))
         off += ln
+        if rng.random() < 0.15:     # the caller relocates the session's context between calls
+            cmds.append("gcmmove %d" % sid)
     cmds.append("gcmf %d %s %d %s" % (sid, dirn, tlen or rng.choice([8, 12, 16]), place(rng)))
     return cmds
 
@@ -226,7 +247,7 @@ def cbc_jobs(rng, n_per_combo, full=False):
 
 def kexp_jobs(rng, n):
     jobs = {}
-    for fam in KEXP_FAMS + ["isal", "legacy"]:
+    for fam in KEXP_FAMS + ["isal", "legacy", "precomp"]:
         for bits in (128, 192, 256):
             jobs["kexp-%s-%d" % (fam, bits)] = [["kexp %s %d %d %d %s" % (fam, bits, bufid(rng), rng.randrange(1 << 20),
                                                                          rng.choice(["e", "s", "a1", "a0", "a7"]))] for _ in range(n)]
